@@ -235,6 +235,8 @@ def run(ctx):
     parsed_text_accepted_only_without_errors(ctx, "R05-k")
     module_tree_is_always_resolved(ctx, "R05-l")
     c13.only_a_missing_default_file_is_forgiven(ctx, "R05-m")
+    import c15
+    c15.session_state(ctx, "R05-n")     # shared with C06 / C15: the exit status is computed from the Session's accumulated flags; a flag that is overwritten forgets an earlier input's failure
     c13.registered_modules_come_from_their_file(ctx, "R05-i")
     c13.resolution_errors_not_overwritten(ctx, "R05-j")
 
